@@ -1122,11 +1122,12 @@ def witness_atoms(ctx, f, atoms, _depth=0):
     out = set()
     cfg = cfg_of(f)
     for a in atoms:
-        if not (a[0] == "is" and a[2] == "None" and a[3] is False and a[1].isidentifier()):
+        # the default: None, or a sentinel object held in a local (`nothing = object()`)
+        if not (a[0] == "is" and a[3] is False and a[1].isidentifier() and (a[2] == "None" or a[2].isidentifier())):
             continue
         sites = [n for n in cfg.nodes if n.kind == "stmt" and isinstance(n.ast, ast.Assign) and len(n.ast.targets) == 1
                  and isinstance(n.ast.targets[0], ast.Name) and n.ast.targets[0].id == a[1]]
-        live = [n for n in sites if not (isinstance(n.ast.value, ast.Constant) and n.ast.value.value is None)]
+        live = [n for n in sites if U(n.ast.value) != a[2]]
         if len(live) != 1 or len(sites) < 2:
             continue
         nxt = [s_ for s_, l_ in cfg.succ[live[0].id] if not (isinstance(l_, str) and l_ == "exc")]
